@@ -219,12 +219,6 @@ Proof.
     destruct (m_deleted m); cbn [app lstrip]; rewrite Hc; reflexivity.
 Qed.
 
-Lemma clean_path_nonnil ex s : s <> [] ->
-  clean_path ex s =
-  if suffixb deleted_sfx (str_strip s) && negb (ex (str_strip s))
-  then firstn (length (str_strip s) - 10) (str_strip s) else str_strip s.
-Proof. destruct s; [congruence|reflexivity]. Qed.
-
 Lemma firstn_app_len {A} (a b : list A) : firstn (length (a ++ b) - length b) (a ++ b) = a.
 Proof.
   rewrite app_length. replace (length a + length b - length b)%nat with (length a) by lia.
@@ -233,15 +227,15 @@ Qed.
 
 (* decoding of the path column: the mapping's own path *)
 Lemma clean_path_own ex m c pr : m_path m = c :: pr ->
-  path_ok ex m = true -> edges_ok m = true ->
-  clean_path ex (shown_path m) = m_path m.
+  path_ok ex m = true -> clean_path ex (shown_path m) = m_path m.
 Proof.
-  intros Ep Hp He. unfold path_ok in Hp. rewrite Ep in Hp.
+  intros Ep Hp. unfold path_ok in Hp. rewrite Ep in Hp.
   apply andb_true_iff in Hp as [_ Hd].
-  unfold edges_ok in He. apply beqb_eq in He.
-  rewrite clean_path_nonnil.
-  2:{ unfold shown_path. rewrite Ep. destruct (m_deleted m); discriminate. }
-  rewrite He. unfold shown_path in *. destruct (m_deleted m).
+  assert (E : clean_path ex (shown_path m) =
+              if suffixb deleted_sfx (shown_path m) && negb (ex (shown_path m))
+              then firstn (length (shown_path m) - 10) (shown_path m) else shown_path m).
+  { unfold shown_path. rewrite Ep. destruct (m_deleted m); reflexivity. }
+  rewrite E. unfold shown_path in *. destruct (m_deleted m).
   - rewrite suffixb_app. apply negb_true_iff in Hd. rewrite Hd. cbn [negb andb].
     change 10%nat with (length deleted_sfx). apply firstn_app_len.
   - rewrite <- Ep in Hd. apply orb_true_iff in Hd as [Hd|Hd].
@@ -249,18 +243,17 @@ Proof.
     + rewrite Hd. cbn [negb]. now rewrite andb_false_r.
 Qed.
 
-Lemma mk_row_hdr ex m d : wf_mapping ex m = true ->
+Lemma mk_row_hdr ex m d : wf_kernel ex m = true ->
   mk_row ex (hdr_text m) d =
   Val {| w_addr := m_addr m; w_perms := m_perms m;
          w_path := match m_path m with [] => anon_path | p => p end;
          w_nums := map (fun k => dict_get k d) map_keys |}.
 Proof.
-  unfold wf_mapping. intros H. apply andb_true_iff in H as [Hk He].
-  unfold mk_row. rewrite (hdr_fields ex m Hk). unfold hdr_tokens.
+  intros Hk. unfold mk_row. rewrite (hdr_fields ex m Hk). unfold hdr_tokens.
   apply wf_kernel_parts in Hk as (_ & _ & _ & Hp & _).
   destruct (m_path m) as [|c pr] eqn:Ep; cbn [app].
   - reflexivity.
-  - rewrite <- Ep. now rewrite (clean_path_own ex m c pr Ep Hp He).
+  - rewrite <- Ep. now rewrite (clean_path_own ex m c pr Ep Hp).
 Qed.
 
 Lemma block_line_hdr ex m cur d rows : wf_kernel ex m = true ->
@@ -437,14 +430,11 @@ Definition finish (ex : bytes -> bool) (st : bstate) : outcome (list maprow) :=
 Definition has_figs (m : mapping) (d : dict) : Prop :=
   forall f, In f row_figs -> dict_get (fkey f) d = kb m f * 1024.
 
-Lemma row_of ex m d : wf_mapping ex m = true -> has_figs m d -> mk_row ex (hdr_text m) d = Val (spec_row m).
+Lemma row_of ex m d : wf_kernel ex m = true -> has_figs m d -> mk_row ex (hdr_text m) d = Val (spec_row m).
 Proof.
   intros Hwf Hd. rewrite mk_row_hdr by exact Hwf. unfold spec_row. f_equal. f_equal.
   rewrite map_keys_eq, map_map. apply map_ext_in. exact Hd.
 Qed.
-
-Lemma wf_mapping_kernel ex m : wf_mapping ex m = true -> wf_kernel ex m = true.
-Proof. unfold wf_mapping. intros H. now apply andb_true_iff in H as [H _]. Qed.
 
 Lemma has_figs_fold ex m d : wf_kernel ex m = true -> has_figs m (fold_left upd (m_lines m) d).
 Proof.
@@ -453,15 +443,15 @@ Proof.
   unfold kb. now apply get_fold_one.
 Qed.
 
-Lemma blocks_run ex rest ys : texts_of rest ys -> forallb (wf_mapping ex) rest = true ->
-  forall m dm rows, wf_mapping ex m = true -> has_figs m dm ->
+Lemma blocks_run ex rest ys : texts_of rest ys -> forallb (wf_kernel ex) rest = true ->
+  forall m dm rows, wf_kernel ex m = true -> has_figs m dm ->
   (do st <- block_fold ex (hdr_text m, dm, rows) ys; finish ex st)
   = Val (rev rows ++ spec_row m :: map spec_row rest).
 Proof.
   induction 1 as [|m' ms xs ys Hx _ IH]; intros Hwf m dm rows Hm Hd.
   - cbn [block_fold obind finish]. rewrite (row_of ex m dm Hm Hd). reflexivity.
   - cbn [forallb] in Hwf. apply andb_true_iff in Hwf as [Hm' Hms].
-    pose proof (wf_mapping_kernel ex m' Hm') as Hk'.
+    pose proof Hm' as Hk'.
     cbn [block_fold]. rewrite (block_line_hdr ex m' _ dm rows Hk'), (row_of ex m dm Hm Hd). cbn [obind].
     rewrite block_fold_app.
     rewrite (block_fold_lines ex (m_lines m') xs); [|now apply wf_kernel_parts in Hk' as (_ & _ & _ & _ & Hl & _)|exact Hx].
@@ -504,12 +494,6 @@ Proof.
     rewrite last_app_nonnil by apply plines_nonnil. exact El.
 Qed.
 
-Lemma forallb_kernel ex ms : forallb (wf_mapping ex) ms = true -> forallb (wf_kernel ex) ms = true.
-Proof.
-  induction ms as [|m ms IH]; [reflexivity|]. cbn [forallb]. intros H. apply andb_true_iff in H as [Hm Hms].
-  now rewrite (wf_mapping_kernel ex m Hm), IH.
-Qed.
-
 Lemma hdr_core_head ex m : wf_kernel ex m = true -> ws_head (hdr_core m) = false.
 Proof.
   intros Hm. apply wf_kernel_parts in Hm as (Ht & _). unfold hdr_tokens in Ht. cbn [forallb] in Ht.
@@ -543,11 +527,11 @@ Proof.
   - rewrite El. cbn [lp snd]. apply line_trail_ws.
 Qed.
 
-Theorem maps_ungrouped ex ms : forallb (wf_mapping ex) ms = true ->
+Theorem maps_ungrouped ex ms : forallb (wf_kernel ex) ms = true ->
   memory_maps Alive ex (FContent (k_smaps ms)) = Val (map spec_row ms).
 Proof.
   intros Hwf. destruct ms as [|m0 ms]; [reflexivity|].
-  pose proof (forallb_kernel ex _ Hwf) as Hk.
+  pose proof Hwf as Hk.
   pose proof (texts_of_plines (m0 :: ms) (wf_has_lines ex _ Hk)) as Ht.
   pose proof (texts_no_nl ex _ _ Ht Hk) as Hn.
   rewrite (memory_maps_data ex _ _ (strip_smaps ex m0 ms Hk)).
